@@ -47,18 +47,31 @@ def check(ctx: Ctx) -> None:
         ob.require(n >= 4, f"{n} validation sites in remote_exec (floor 4)")
         if not cfg.dominated_by(sd[0].id, nc[0].id):
             ob.violation(f_re, sd[0].ast, "CHANNEL_EXEC can be sent without a freshly allocated channel")
-        # kwargs without a function -> TypeError
-        te = [nd for nd in cfg.nodes if isinstance(nd.ast, ast.Raise) and unparse(nd.ast.exc).startswith("TypeError") and nd.id in cfg.live()]
-        ok = False
-        for nd in te:
-            f = Facts(repo, f_re, {})
-            for (t, lab) in cfg.guards(nd.id):
-                if t.kind == "test":
-                    f.assume(t.ast, lab == "true")
-            if f.get("call_name") is False and f.get("kwargs") is True:
-                ok = True
-        ob.site(f_re, te[0].ast if te else f_re.node, "kwargs with a non-function source raise TypeError", ok=ok)
-        if not ok:
+        # kwargs without a function -> TypeError (on value terms: the payload's call_name and the kwargs dict)
+        from ..terms import NONE as _NONE, evaluator as _ev, show as _show, tv as _tv
+        kwn = f_re.node.args.kwarg.arg if f_re.node.args.kwarg else "kwargs"
+        KW = ("sym", kwn)
+        ev_re = _ev(repo, f_re)
+        re_paths = list(ev_re.run(limit=20000))
+        ok = True
+        nte = 0
+        for (pth, st) in re_paths:
+            end_ = ev_re.cfg.nodes[pth[-1][0]]
+            rs = [e for e in st.events if e.kind == "raise"]
+            if end_.kind == "raise" and rs and rs[-1].value[0] == "fresh" and rs[-1].value[2] == "TypeError" and st.known.get(KW) is True:
+                nte += 1
+            sends = [e for e in st.events if e.kind == "call" and e.callee == "self._send"]
+            for sd_ in sends:
+                pay = [x for x in st.events if x.kind == "call" and x.result == (sd_.args[2] if len(sd_.args) > 2 else None)]
+                tup = pay[0].args[0] if pay and pay[0].args else None
+                if tup is None or tup[0] != "tuple" or len(tup) != 5:
+                    continue
+                call_name = tup[3]
+                # a request goes out with kwargs only if there is a function to call
+                if _tv(call_name, st.known) is False and st.known.get(KW) is not False:
+                    ok = False
+        ob.site(f_re, f_re.node, "kwargs with a non-function source raise TypeError", ok=ok and nte >= 1, typeerror_paths=nte)
+        if not (ok and nte >= 1):
             ob.violation(f_re, f_re.node, "keyword arguments for a non-function source are not rejected with TypeError", construct="no kwargs TypeError")
         # the checks of _source_of_function
         cs = build_cfg(repo, f_sf, Oracle(repo, f_sf, precise=True))
@@ -165,18 +178,59 @@ def check(ctx: Ctx) -> None:
                     ob.violation(f_ex, call[0], "the function call is not conditioned on a call_name being given")
 
     with ctx.obligation("C06.c", "payload-roles") as ob:
-        snd = [c for c in repo.calls_in(f_re) if callee_attr(c) == "_send"]
-        pl = snd[0].args[2] if snd and len(snd[0].args) > 2 else None
-        ok = isinstance(pl, ast.Call) and callee_attr(pl) == "dumps_internal" and isinstance(pl.args[0], ast.Tuple) and len(pl.args[0].elts) == 4 \
-            and unparse(pl.args[0].elts[3]) == (f_re.node.args.kwarg.arg if f_re.node.args.kwarg else "kwargs")
-        ob.site(f_re, snd[0] if snd else f_re.node, "payload = (source, file_name, call_name, kwargs)", ok=ok)
-        if not ok:
-            ob.violation(f_re, snd[0] if snd else f_re.node, "remote_exec does not send the 4-tuple (source, file_name, call_name, kwargs)")
-        if snd and (repo.fold_in(snd[0].args[0], f_re) != repo.cls("Message").consts["CHANNEL_EXEC"] or unparse(snd[0].args[1]) != "channel.id"):
-            ob.violation(f_re, snd[0], "remote_exec does not send CHANNEL_EXEC on the new channel's id")
-        rets = [x for x in repo.own_nodes(f_re) if isinstance(x, ast.Return)]
-        if len(rets) != 1 or unparse(rets[0].value) != "channel":
-            ob.violation(f_re, f_re.node, "remote_exec does not return the channel it connected")
+        from ..terms import NONE as _NONE2, const as _c
+        src_p = f_re.params()[1]
+        SRC = ("sym", src_p)
+        roles = {"module": 0, "function": 0, "text": 0}
+        nsend = 0
+        for (pth, st) in re_paths:
+            if pth[-1][0] != ev_re.cfg.exit.id:
+                continue
+            sends = [e for e in st.events if e.kind == "call" and e.callee == "self._send"]
+            if len(sends) != 1:
+                ob.violation(f_re, f_re.node, "remote_exec does not send exactly one CHANNEL_EXEC request")
+                continue
+            nsend += 1
+            sd_ = sends[0]
+            chans = [e.result for e in st.events if e.kind == "call" and e.callee == "self.newchannel"]
+            if sd_.args[:1] != (_c(repo.cls("Message").consts["CHANNEL_EXEC"]),) or len(sd_.args) < 3 or not chans or sd_.args[1] != ("attr", chans[0], "id"):
+                ob.violation(f_re, sd_.node, "remote_exec does not send CHANNEL_EXEC on the new channel's id")
+            if not chans or st.ret != chans[0]:
+                ob.violation(f_re, f_re.node, "remote_exec does not return the channel it connected")
+            pay = [x for x in st.events if x.kind == "call" and x.result == (sd_.args[2] if len(sd_.args) > 2 else None)]
+            tup = pay[0].args[0] if pay and pay[0].callee and pay[0].callee.endswith("dumps_internal") and pay[0].args else None
+            ok = tup is not None and tup[0] == "tuple" and len(tup) == 5 and tup[4] == ("sym", kwn)
+            if nsend == 1:
+                ob.site(f_re, sd_.node, "payload = (source, file_name, call_name, kwargs)", ok=ok)
+            if not ok:
+                ob.violation(f_re, sd_.node, "remote_exec does not send the 4-tuple (source, file_name, call_name, kwargs)")
+                continue
+            s_, f_, c_ = tup[1], tup[2], tup[3]
+
+            def made_by(t, name):
+                mk = [x for x in st.events if x.kind == "call" and x.result == t]
+                return bool(mk) and (mk[0].callee or "").split(".")[-1] == name and mk[0].args[:1] == (SRC,)
+            is_mod = st.known.get(("pcall", "isinstance", (SRC, ("sym", "types.ModuleType")), ()))
+            is_fun = st.known.get(("pcall", "isinstance", (SRC, ("sym", "types.FunctionType")), ()))
+            if is_mod is True:
+                roles["module"] += 1
+                if not (made_by(s_, "getsource") and made_by(f_, "getsourcefile") and c_ == _NONE2):
+                    ob.violation(f_re, sd_.node, "the transmitted source is not the function's/module's own source", construct="module roles")
+            elif is_fun is True:
+                roles["function"] += 1
+                if not made_by(s_, "_source_of_function"):
+                    ob.violation(f_re, sd_.node, "the transmitted source is not the function's/module's own source", construct="function source")
+                if not made_by(f_, "getsourcefile"):
+                    ob.violation(f_re, sd_.node, "file_name is not the source file of the module/function")
+                if c_ != ("sym", f"{src_p}.__name__"):
+                    ob.violation(f_re, sd_.node, "call_name is not the function's own name")
+            else:
+                roles["text"] += 1
+                if not (f_ == _NONE2 and c_ == _NONE2):
+                    ob.violation(f_re, sd_.node, "a plain-text source is sent with a file name / call name")
+        ob.site(f_re, f_re.node, "sender roles", paths=roles)
+        if not all(roles.values()):
+            ob.violation(f_re, f_re.node, "remote_exec does not send the 4-tuple (source, file_name, call_name, kwargs)", construct=f"roles {roles}")
         un = [x for x in repo.own_nodes(f_ex) if isinstance(x, ast.Assign) and isinstance(x.targets[0], ast.Tuple) and unparse(x.value) == f_ex.params()[1]]
         ok = len(un) == 1 and isinstance(un[0].targets[0].elts[1], ast.Tuple) and len(un[0].targets[0].elts[1].elts) == 4 and len(un[0].targets[0].elts) == 2
         ob.site(f_ex, un[0] if un else f_ex.node, "executetask unpacks (channel, (source, file_name, call_name, kwargs))", ok=ok)
@@ -189,26 +243,6 @@ def check(ctx: Ctx) -> None:
         ob.site(f_ex, comp[0] if comp else f_ex.node, "compile(source, file_name or ..., 'exec')", ok=ok)
         if not ok:
             ob.violation(f_ex, f_ex.node, "the source is not compiled under the transmitted file name (tracebacks would not name the original file)")
-        # sender roles
-        from ..util import xtext
-        asg = {}
-        for x in repo.own_nodes(f_re):
-            if isinstance(x, ast.Assign) and isinstance(x.targets[0], ast.Name):
-                asg.setdefault(x.targets[0].id, []).append(xtext(repo, f_re, x.value))
-            if isinstance(x, ast.Assign) and isinstance(x.targets[0], ast.Tuple) and isinstance(x.value, ast.Tuple) and len(x.value.elts) == len(x.targets[0].elts):
-                for t, v in zip(x.targets[0].elts, x.value.elts):
-                    if isinstance(t, ast.Name):
-                        asg.setdefault(t.id, []).append(xtext(repo, f_re, v))
-        # names of the payload tuple elements
-        pl_names = [unparse(e) for e in pl.args[0].elts] if isinstance(pl, ast.Call) and pl.args and isinstance(pl.args[0], ast.Tuple) and len(pl.args[0].elts) == 4 else ["source", "file_name", "call_name", "kwargs"]
-        asg = {"source": asg.get(pl_names[0], []), "file_name": asg.get(pl_names[1], []), "call_name": asg.get(pl_names[2], [])}
-        ob.site(f_re, f_re.node, "sender roles", call_name=asg.get("call_name"), file_name=asg.get("file_name"))
-        if "source.__name__" not in asg.get("call_name", []):
-            ob.violation(f_re, f_re.node, "call_name is not the function's own name")
-        if asg.get("file_name", []).count("inspect.getsourcefile(source)") < 2:
-            ob.violation(f_re, f_re.node, "file_name is not the source file of the module/function")
-        if "_source_of_function(source)" not in asg.get("source", []) or "inspect.getsource(source)" not in asg.get("source", []):
-            ob.violation(f_re, f_re.node, "the transmitted source is not the function's/module's own source")
         fls = repo.func(f"{GB}.WorkerGateway._local_schedulexec")
         sp = [c for c in repo.calls_in(fls) if callee_attr(c) == "spawn"]
         ld = [c for c in repo.calls_in(fls) if callee_attr(c) == "loads_internal"]
